@@ -287,6 +287,7 @@ def make_case(rng, family=None):
     return {"kind": "sim", "family": family, "spec": spec, "steady": steady, "meta": meta, "source": rr["source"], "context": rr["context"],
             "T": T, "unant": unant, "ant": ant, "msh": msh, "init": init, "nvar": nvar,
             "warmup": int(rng.integers(1, 3)) if rng.random() < 0.5 else 0,
+            "hist": int(rng.integers(0, 2 ** 31)) if rng.random() < 0.4 else None,
             "deviation_modes": [bool(rng.random() < 0.5)] if rng.random() < 0.6 else ([False, True] if rng.random() < 0.5 else [True, False]),
             "freq": str(rng.choice(["qq", "mm", "yy", "ii"]))}
 
@@ -394,6 +395,11 @@ def run_case(c, case):
             else:
                 c.inconc("solve-raised-on-non-determinate-or-uncertified-model")
             return
+        # ---- history of the model object: query operations of the public API before anything is monitored
+        if case.get("hist") is not None:
+            from ..workloads import history as Hist
+            for op in Hist.perturb(m, case["hist"], spec, freq=case["freq"]):
+                c.note("history:" + op)
         # ---- stability verdicts per variant
         lins, classes = [], []
         for v in range(nvar):
